@@ -50,6 +50,13 @@ Fixpoint lstrip (s : list N) : list N :=
 
 Definition strip (s : list N) : list N := rev (lstrip (rev (lstrip s))).
 
+(* s.rstrip() *)
+Definition rstrip (s : list N) : list N := rev (lstrip (rev s)).
+
+(* s.endswith("\\") *)
+Definition ends_backslash (s : list N) : bool :=
+  match rev s with c :: _ => N.eqb c 92 | [] => false end.
+
 (* analysis_lib.get_indentation: 0 for a blank line, else
    len(line) - len(line.lstrip()) *)
 Definition indentation (s : list N) : nat :=
